@@ -150,8 +150,13 @@ def supply(sa, sb, sc, sextra, with_folder, v0, v1, v2, v3, v4, v5, v6, v7):
             inputs["c"] = full["c"]
         if sc:
             inputs["p"] = full["p"]
-        if sextra:
+        sextra = L.concretize(sextra, 0, 3)
+        if sextra == 1:
             inputs["zz"] = v4
+        elif sextra == 2:
+            inputs["d"] = v4  # named like an intermediate output: still a surplus input of a plain map
+        elif sextra == 3:
+            inputs["y"] = [v4, v5]  # named like the leaf output
         valid = sa and sb and not sextra
         run = lambda: p.map(dict(inputs), run_folder=folder, storage="file_array" if folder else "dict", parallel=False, cleanup=not folder)  # noqa: E731
         if not valid:
@@ -244,6 +249,53 @@ def storage_name(sel, per_output, v0, v1, existing=False):
         L.cleanup_dirs()
 
 
+def storage_dict(sel, form, v0, v1, v2, existing):
+    """per-output storage dict on a pipeline with four outputs: an unknown name anywhere in the dict (before / after
+    serializing and in-memory entries, as the default entry, for a mapped or an unmapped output) is rejected up front"""
+    L.reset()
+    bad = ["nope", "", "File_Array", "dict "][L.concretize(sel, 0, 3)]
+    form = L.concretize(form, 0, len(STORAGE_FORMS) - 1)
+    st = {k: (bad if v == "BAD" else v) for k, v in STORAGE_FORMS[form]}
+    t = T["T17"]
+    try:
+        with NoTracing():
+            from engine import shims
+
+            shims.TOK.clear()
+            log = tmpl.Log()
+            p = tmpl.make_pipeline(t.funcs, log)
+            folder = L.scratch_dir()
+        inputs = {"a": [v0, v1], "c": v2}
+        if existing:
+            p.map(dict(inputs), run_folder=folder, storage="file_array", parallel=False)
+            with NoTracing():
+                del log[:]
+        run = lambda: p.map(dict(inputs), run_folder=folder, storage=st, parallel=False, cleanup=not existing)  # noqa: E731
+        if any(v == "BAD" for _, v in STORAGE_FORMS[form]):
+            return _expect_reject(run, log, folder if existing else None)
+        if existing:
+            return True
+        res = run()
+        ref, _ = tmpl.reference(t.funcs, inputs)
+        return tmpl.compare_results(t.funcs, res, ref)
+    finally:
+        L.cleanup_dirs()
+
+
+# (output name -> storage) in insertion order; BAD is replaced by an unknown name
+STORAGE_FORMS = [
+    (("y", "file_array"), ("z", "BAD"), ("", "dict")),
+    (("z", "BAD"), ("y", "file_array"), ("", "dict")),
+    (("y", "dict"), ("z", "BAD"), ("", "file_array")),
+    (("", "file_array"), ("x", "BAD")),
+    (("y", "file_array"), ("r", "BAD"), ("", "dict")),  # r has no MapSpec
+    (("y", "file_array"), ("", "BAD"), ("z", "dict")),
+    (("y", "dict_sub"), ("z", "dict"), ("x", "file_array"), ("r", "BAD")),
+    (("y", "file_array"), ("z", "dict"), ("", "dict")),  # valid
+    (("", "file_array"), ("x", "dict")),  # valid
+]
+
+
 def executor_without_parallel(v0, v1, as_dict):
     L.reset()
     from concurrent.futures import ThreadPoolExecutor
@@ -314,14 +366,20 @@ def obligations(tier):
            bounds="zipped lengths 1..2 x 1..2 against an existing run folder (cleanup=False): rejected without altering the folder"),
         Ob("rank_fault", [("kind", I), ("rank", I)] + VALS, ["0 <= kind <= 1", "1 <= rank <= 3"], f"H.rank_fault(kind, rank, {VARGS})", timeout=200,
            bounds="nested list or ndarray of rank 1..3 for a 2-D MapSpec input"),
-        Ob("supply", [("sa", Bo), ("sb", Bo), ("sc", Bo), ("sextra", Bo), ("with_folder", Bo)] + VALS, [], f"H.supply(sa, sb, sc, sextra, with_folder, {VARGS})",
-           timeout=400, flags=("tokpickle",), bounds="every subset of the root arguments (+ one surplus name), with and without an existing run folder"),
+        Ob("supply", [("sa", Bo), ("sb", Bo), ("sc", Bo), ("sextra", I), ("with_folder", Bo)] + VALS, ["0 <= sextra <= 3"], f"H.supply(sa, sb, sc, sextra, with_folder, {VARGS})",
+           timeout=400, flags=("tokpickle",), bounds="every subset of the root arguments (+ one surplus name: fresh, named like an intermediate output, named like the leaf output), with and without an existing run folder"),
         Ob("defaults", [("d1", I), ("d2", I), ("d3", I), ("bound_one", Bo)], [], "H.defaults(d1, d2, d3, bound_one)", timeout=120,
            bounds="three defaults of a shared parameter, unbounded ints; one optionally bound"),
         Ob("storage_name", [("sel", I), ("per_output", Bo), ("v0", I), ("v1", I)], ["0 <= sel <= 6"], "H.storage_name(sel, per_output, v0, v1)", timeout=200,
            flags=("tokpickle",), bounds="storage names from a list of 3 registered and 4 unknown ones, as a string or per output"),
         Ob("storage_name_existing_folder", [("sel", I), ("per_output", Bo), ("v0", I), ("v1", I)], ["3 <= sel <= 6"], "H.storage_name(sel, per_output, v0, v1, True)",
            timeout=200, flags=("tokpickle",), bounds="unknown storage name with cleanup=False on an existing run folder: rejected without altering the folder"),
+        Ob("storage_dict", [("sel", I), ("form", I), ("v0", I), ("v1", I), ("v2", I)], ["0 <= sel <= 3", f"0 <= form < {len(STORAGE_FORMS)}"],
+           "H.storage_dict(sel, form, v0, v1, v2, False)", timeout=300, flags=("tokpickle",),
+           bounds="per-output storage dicts on a 4-output pipeline: an unknown name before / after serializing and in-memory entries, as default entry, for an unmapped output; 2 valid dicts"),
+        Ob("storage_dict_existing_folder", [("sel", I), ("form", I), ("v0", I), ("v1", I), ("v2", I)], ["0 <= sel <= 3", f"0 <= form < {len(STORAGE_FORMS) - 2}"],
+           "H.storage_dict(sel, form, v0, v1, v2, True)", timeout=300, flags=("tokpickle",),
+           bounds="the same ill-formed dicts with cleanup=False on an existing run folder: rejected without altering the folder"),
         Ob("executor_without_parallel", [("v0", I), ("v1", I), ("as_dict", Bo)], [], "H.executor_without_parallel(v0, v1, as_dict)", timeout=60,
            bounds="executor given with parallel=False"),
         Ob("internal_shape", [("kind", I), ("v0", I), ("v1", I), ("v2", I)], ["0 <= kind <= 2"], "H.internal_shape_missing(kind, v0, v1, v2)", timeout=120,
